@@ -121,12 +121,12 @@ pub open spec fn targets_ok(v: Seq<(u64, u64)>, c: Seq<u8>, cs: int) -> bool {
 //@rule R8
 //@sub /f: File/ => f: VLines
 //@sub /io::Result<Vec<\(u64, u64\)>>/ => Result<Vec<(u64, u64)>, IoError>
-//@sub /f\.metadata\(\)\?\.len\(\)/ => f.metadata_len()?
+//@sub /f\.metadata\(\)\?\.len\(\)/ => f.metadata_len()? min=0
 //@sub /io::BufReader::new\(f\)/ => f
-//@sub /file_reader\.seek\(io::SeekFrom::Start\((\w+)\)\)/ => file_reader.seek_start(\1)
-//@sub /file_reader\.read_line\(&mut String::new\(\)\)/ => file_reader.read_line_discard()
-//@sub /file_reader\.seek\(io::SeekFrom::Current\(0\)\)/ => file_reader.tell()
-//@sub /\(chunk_start, chunk_end\) = (\(.*?\));\n/ => let pair_tmp: (u64, u64) = \1; chunk_start = pair_tmp.0; chunk_end = pair_tmp.1;\n
+//@sub /file_reader\.seek\(io::SeekFrom::Start\((\w+)\)\)/ => file_reader.seek_start(\1) min=0
+//@sub /file_reader\.read_line\(&mut String::new\(\)\)/ => file_reader.read_line_discard() min=0
+//@sub /file_reader\.seek\(io::SeekFrom::Current\(0\)\)/ => file_reader.tell() min=0
+//@sub /\(chunk_start, chunk_end\) = (\(.*?\));\n/ => let pair_tmp: (u64, u64) = \1; chunk_start = pair_tmp.0; chunk_end = pair_tmp.1;\n min=0
 //@ret r
 //@sig
     requires
